@@ -646,4 +646,23 @@ example : dupSiblings auS { recursive := true, noLyds := true } auT = auT.map (d
   ⟨dup_siblings_equal auS _ auT (by decide), dup_siblings_equal exDS _ exDSrc (by decide), dup_siblings_full auS auT (by decide),
    merge_into_empty_eq_dup auS {} auSrc (by decide)⟩
 
+/-- `lyd_dup_single / lyd_dup_siblings(node, parent, opts)` into a caller-supplied inner parent that already has children
+    (`Merge.dupInto`): the parent keeps its schema node, flags other than `LYD_DEFAULT`, and metadata; its children afterwards are
+    the OLD children with the copy of every non-key source node (`dupNode`: relabelled as the options say) inserted one by one
+    at the place `lyd_insert_node` gives it (`LYD_DUP_NO_LYDS`: by schema only); `LYD_DEFAULT` survives only if every copy has it.
+    (That this one-by-one insertion is canonical for the sibling-list invariant, with the concrete sorting tree, is
+    `C04Rb.dup_into_parent_canonical`.) -/
+theorem dup_into_parent_kids (S : Schema) (o : DupOpts) (single : Bool) (s : Nat) (f : Flags) (m : List Meta) (ks sibs : List DNode) :
+    (dupInto S o single (.inner s f m ks) sibs).kids =
+      ((((if single then sibs.take 1 else sibs).filter fun n => !(S.isKey n.sid)).map (dupNode S o)).foldl
+        (fun acc x => insertWith S (if o.noLyds then Order.bySchema else Order.dflt) acc x) ks) ∧
+    (dupInto S o single (.inner s f m ks) sibs).sid = s ∧ (dupInto S o single (.inner s f m ks) sibs).metas = m ∧
+    (dupInto S o single (.inner s f m ks) sibs).flags.new = f.new := by
+  simp [dupInto, DNode.setKids, DNode.setDflt, DNode.setFlags, DNode.kids, DNode.sid, DNode.metas, DNode.flags]
+
+/-- non-vacuity (audit): into the first top-level node of `auT` (it has children) — the copy of a child of the source's first
+    node arrives among them -/
+example : ((dupInto auS DupOpts.full false (auT.headD default) ((auSrc.headD default).kids)).kids.length) =
+    (auT.headD default).kids.length + ((auSrc.headD default).kids.filter fun n => !(auS.isKey n.sid)).length := by decide
+
 end LyModel.Props.C14
